@@ -146,7 +146,8 @@ func main() {
 		fmt.Fprintln(os.Stderr, err)
 		os.Exit(1)
 	}
-	if err := os.WriteFile(*out, []byte(a.render()), 0o644); err != nil {
+	rendered := strings.Replace(a.render(), "\nend Generated\n", renderEffects(files)+"\nend Generated\n", 1)
+	if err := os.WriteFile(*out, []byte(rendered), 0o644); err != nil {
 		fmt.Fprintln(os.Stderr, err)
 		os.Exit(1)
 	}
